@@ -76,6 +76,14 @@ def install(E):
         if getattr(e, 'padd_inj', False):
             e.ax(('paddinj', t.get_id()), paddl_f(t) == t.arg(0), paddr_f(t) == t.arg(1))
         return t
+    pneg_f = z3.Function('pneg', IntS, IntS)
+    def pneg(e, P):
+        if getattr(e, 'crypto_mode', 'alg') == 'alg': return -P
+        P = z3.simplify(P)
+        if is_app_of(P, 'pneg'): return P.arg(0)
+        t = pneg_f(P)
+        e.ax(('pneg', t.get_id()), pneg_f(t) == P, z3.Implies(P != 0, z3.And(t != P, t != 0)))
+        return t
     def pubof(e, k):
         if getattr(e, 'crypto_mode', 'alg') == 'alg': return k
         return pmul(e, k, z3.IntVal(1))
@@ -272,6 +280,19 @@ def install(E):
     I[RT + 'Priv'] = vpriv
     I[RT + 'SamePriv'] = lambda e, a: privval(e, a[0]) == privval(e, a[1])
     I[RT + 'SamePub'] = lambda e, a: pkval(e, a[0]) == pkval(e, a[1])
+    I[RT + 'NegPub'] = lambda e, a: mkpk(pneg(e, pkval(e, a[0])))
+    # comparison of single affine coordinates (FieldVal.Equals on &point.X): two points share their x coordinate exactly
+    # when they are equal or negatives of each other; comparisons of y coordinates alone are not modelled
+    def fv_equals(e, a):
+        def coord(p):
+            if p is None or not p.path: raise Unsupported('FieldVal.Equals on a field value that is not a coordinate of a modelled point')
+            o = e.peek(Ptr(p.box, p.path[:-1]))
+            if not isinstance(o, Opaque) or o.kind != 'jac': raise Unsupported('FieldVal.Equals on a field value that is not a coordinate of a modelled point')
+            return o.val, p.path[-1]
+        (P, i), (Q, j) = coord(a[0]), coord(a[1])
+        if i != 0 or j != 0: raise Unsupported('FieldVal.Equals on y / z coordinates')
+        return z3.Or(P == Q, P == pneg(e, Q))
+    I['(*%sFieldVal).Equals' % SECP] = fv_equals
     def vsign(e, a):
         x = a[2]
         aux = x if isinstance(x, int) else z3.If(x == 0, z3.IntVal(0), z3.If(x == 1, z3.IntVal(1), z3.BV2Int(x)))
